@@ -166,15 +166,16 @@ Record tg_idl (c : connp) (d : bytes) (rd : nat) (p : bytes) (done : list (optio
   gl_txs : c_txs c = done;
   gl_shift : c_txs_shifted c = 0%nat;
   gl_flags : c_conn_flags c = ax_flags fl;
-  gl_onext : c_out_next_tx_index c = ax_onext fl /\ tn_rs c = ax_rs fl }.
+  gl_onext : c_out_next_tx_index c = ax_onext fl /\ tn_rs c = ax_rs fl /\ c_in_content_length c = ax_cl fl }.
 
 (* HTP_CONN_PIPELINED: a transaction is created while an earlier one has no response yet *)
+(* htp_connp_tx_create: the pipelining indicator; in_content_length is reset *)
 Definition tg_next_flags (done : list (option tx)) (fl : tg_aux) : tg_aux :=
-  if (ax_onext fl <? length done)%nat then mk_tg_aux (flag_set (ax_flags fl) c_HTP_CONN_PIPELINED) (ax_onext fl) (ax_rs fl) else fl.
+  mk_tg_aux (if (ax_onext fl <? length done)%nat then flag_set (ax_flags fl) c_HTP_CONN_PIPELINED else ax_flags fl) (ax_onext fl) (ax_rs fl) (-1)%Z.
 
 Lemma tg_cin_from_idl c c' d rd p done fl fl' prev t : tg_idl c d rd p done fl prev ->
   c_in_status c' = c_in_status c -> c_in_state c' = REQ_LINE -> c_in_state_previous c' = c_in_state_previous c -> c_in c' = c_in c ->
-  c_in_tx c' = Some (length done) -> c_txs c' = done ++ [Some t] -> c_txs_shifted c' = 0%nat -> c_conn_flags c' = ax_flags fl' -> (c_out_next_tx_index c' = ax_onext fl' /\ tn_rs c' = ax_rs fl') ->
+  c_in_tx c' = Some (length done) -> c_txs c' = done ++ [Some t] -> c_txs_shifted c' = 0%nat -> c_conn_flags c' = ax_flags fl' -> (c_out_next_tx_index c' = ax_onext fl' /\ tn_rs c' = ax_rs fl' /\ c_in_content_length c' = ax_cl fl') ->
   tg_cinw (mk_tg_world done fl') c' d rd p None REQ_LINE prev None t.
 Proof.
   intros [A1 A2 A3 A4 A5 A6 A7 A8 A9 A10 A11 A12 A13 A14 A15 A16 A17] E1 E2 E3 E4 E5 E6 E7 E8 E9.
@@ -193,7 +194,7 @@ Lemma tg_idle_fn c d rd p done fl prev : tg_idl c d rd p done fl prev -> (rd < l
     c_in c0 = c_in c /\ c_txs_shifted c0 = 0%nat /\ c_out_next_tx_index c0 = ax_onext (tg_next_flags done fl) /\ tn_rs c0 = ax_rs (tg_next_flags done fl).
 Proof.
   (* adapted: HTP_CONN_PIPELINED is raised when out_next_tx_index < number of transactions *)
-  intros [A1 A2 A3 A4 A5 A6 A7 A8 A9 A10 A11 A12 A13 A14 A15 A16 A17] Hlt Hmax. destruct A17 as [A17 A18].
+  intros [A1 A2 A3 A4 A5 A6 A7 A8 A9 A10 A11 A12 A13 A14 A15 A16 A17] Hlt Hmax. destruct A17 as (A17 & A18 & A19).
   unfold REQ_IDLE_fn, rq_at_end. rewrite A5, A6.
   assert (L : (length d <=? rd)%nat = false) by (apply Nat.leb_gt; exact Hlt). rewrite L.
   unfold connp_tx_create. rewrite A14, A17.
@@ -224,6 +225,6 @@ Proof.
   destruct (sg_idle_mk_proj done c0) as (P1 & P2 & P3 & P4 & P5 & P6 & P7 & P8 & P9).
   apply (tg_iter_ok cb g c (sg_idle_mk done c0) d rd p None REQ_LINE prev None _); [rewrite (gl_state _ _ _ _ _ _ _ H); exact E1| |discriminate].
   apply (tg_cin_from_idl c _ d rd p done fl _ prev _ H); try congruence.
-  split; [congruence|exact F7].
+  split; [congruence|]. split; [exact F7|reflexivity].
 Qed.
 End Idle.
